@@ -63,16 +63,51 @@ def toaff(p):
     if p[2]==0: return None
     zi=pow(p[2],-1,P); return (p[0]*zi*zi%P, p[1]*zi*zi*zi%P)
 _vcache={}
+_gtab=[]
+def _gtable():
+    # fixed-base table: _gtab[i][j] = j * 16^i * G (Jacobian), 64 windows of 4 bits
+    if not _gtab:
+        base=(G[0],G[1],1)
+        for i in range(64):
+            row=[(0,1,0)]
+            for j in range(1,16): row.append(jadd(row[-1],base))
+            _gtab.append(row)
+            base=jadd(row[15],base)
+    return _gtab
+def jmul_g(k):
+    t=_gtable(); r=(0,1,0); i=0
+    while k:
+        d=k&15
+        if d: r=jadd(r,t[i][d])
+        k>>=4; i+=1
+    return r
+def jmul_w(k,pt):
+    # 4-bit fixed-window multiplication of an arbitrary point
+    tab=[(0,1,0),(pt[0],pt[1],1)]
+    for j in range(2,16): tab.append(jadd(tab[-1],tab[1]))
+    r=(0,1,0)
+    for i in range(252,-1,-4):
+        if r[2]: r=jdbl(jdbl(jdbl(jdbl(r))))
+        d=(k>>i)&15
+        if d: r=jadd(r,tab[d])
+    return r
 def ecdsa_verify(Q,z,r,s):
     key=(Q,z,r,s)
     if key in _vcache: return _vcache[key]
     ok=False
     if 1<=r<N and 1<=s<N:
         w=pow(s,-1,N)
-        R=toaff(jadd(jmul(z*w%N,G),jmul(r*w%N,Q)))
+        R=toaff(jadd(jmul_g(z*w%N),jmul_w(r*w%N,Q)))
         ok = R is not None and R[0]%N==r
+    if len(_vcache)>200000: _vcache.clear()
     _vcache[key]=ok
     return ok
+def ecdsa_verify_plain(Q,z,r,s):
+    """the textbook double-and-add version; selfcheck compares the windowed one against it"""
+    if not (1<=r<N and 1<=s<N): return False
+    w=pow(s,-1,N)
+    R=toaff(jadd(jmul(z*w%N,G),jmul(r*w%N,Q)))
+    return R is not None and R[0]%N==r
 def parse_pubkey(b):
     if len(b)==33 and b[0] in (2,3):
         x=int.from_bytes(b[1:],'big')
@@ -234,7 +269,7 @@ def valid_sig_encoding(sig):
     if sig[lenR+6]&0x80: return False
     if lenS>1 and sig[lenR+6]==0 and not (sig[lenR+7]&0x80): return False
     return True
-def check_sig_encoding(sig,flags):
+def check_sig_encoding(sig,flags,forkid=False):
     if len(sig)==0: return
     if flags&(DERSIG|LOW_S|STRICTENC) and not valid_sig_encoding(sig): raise ScriptFail("SIG_DER")
     if flags&LOW_S:
@@ -244,6 +279,7 @@ def check_sig_encoding(sig,flags):
         if rs[1]>N//2: raise ScriptFail("SIG_HIGH_S")
     if flags&STRICTENC:
         ht=sig[-1]&~0x80
+        if forkid: ht&=~0x40    # fork-id coins: the fork-id bit is part of every defined hash type
         if ht<1 or ht>3: raise ScriptFail("SIG_HASHTYPE")
 def check_pubkey_encoding(pk,flags,sigversion):
     if flags&STRICTENC:
@@ -432,7 +468,7 @@ def eval_script(stack,script,flags,checker,sigversion):
                 need(2); sig=stack[-2]; pk=stack[-1]
                 code=bytes(script[begincode:])
                 if sigversion==BASE: code,_=find_and_delete(code,push_data(sig))
-                check_sig_encoding(sig,flags); check_pubkey_encoding(pk,flags,sigversion)
+                check_sig_encoding(sig,flags,getattr(checker,'forkid',False)); check_pubkey_encoding(pk,flags,sigversion)
                 ok=checker.check_sig(sig,pk,code,sigversion)
                 if not ok and flags&NULLFAIL and len(sig): raise ScriptFail("NULLFAIL")
                 stack.pop(); stack.pop(); stack.append(b"\x01" if ok else b"")
@@ -458,7 +494,7 @@ def eval_script(stack,script,flags,checker,sigversion):
                 ok=True; nsig=ns; nkey=nk
                 while ok and nsig>0:
                     sig=stack[-isig]; pk=stack[-ikey]
-                    check_sig_encoding(sig,flags); check_pubkey_encoding(pk,flags,sigversion)
+                    check_sig_encoding(sig,flags,getattr(checker,'forkid',False)); check_pubkey_encoding(pk,flags,sigversion)
                     if checker.check_sig(sig,pk,code,sigversion): isig+=1; nsig-=1
                     ikey+=1; nkey-=1
                     if nsig>nkey: ok=False
@@ -651,6 +687,14 @@ def selfcheck(datadir="/repo/tests/btc/data"):
                     spk,amt=prev[(i[0],i[1])]
                     if verdict(i[2],spk,i[4],fl,tx,idx,amt)!="OK": ok=False;break
             if ok!=expect: bad.append((name,v[1][:40],v[2]))
+    for k in (1,2,3,15,16,17,N-1,N-2,(1<<255)+12345,0xdeadbeef<<200):
+        if toaff(jmul_g(k))!=toaff(jmul(k,G)) or toaff(jmul_w(k,(G[0],G[1])))!=toaff(jmul(k,G)): raise ModelInvalid("windowed multiplication")
+    d=0x1234567; Qd=toaff(jmul(d,G))
+    for z in (1,N-1,1<<255,77):
+        r_,s_=ecdsa_sign(d,z)
+        for (zz,rr,ss) in ((z,r_,s_),(z+1,r_,s_),(z,r_,N-s_),(z,r_+1,s_)):
+            _vcache.clear()
+            if ecdsa_verify(Qd,zz,rr,ss)!=ecdsa_verify_plain(Qd,zz,rr,ss): raise ModelInvalid("windowed verify")
     if bad: raise ModelInvalid("reference interpreter disagrees with %d Core vectors: %r"%(len(bad),bad[:3]))
     if n<1400: raise ModelInvalid("too few vectors found: %d"%n)
     _selfchecked[0]=n
